@@ -10,4 +10,6 @@ for p in "$@"; do
   if echo "$o" | grep -q "^VIOLATION"; then res="$res $p:VIOLATION"; cp $(echo "$o" | grep -m1 -o "replay=[^ ]*" | cut -d= -f2) /verif/seeded/$id/replay-$p.json 2>/dev/null; else res="$res $p:ok"; fi
 done
 git -C /repo checkout -- . ; git -C /repo status --short | head -3
+# the evidence files now describe the mutated tree: put the committed ones (from the unchanged tree) back
+git -C /verif checkout -- evidence/
 echo "RESULT $id:$res"
